@@ -9,10 +9,9 @@ package interp
 // no progress the harness's idle hook (the environment) is run on the main goroutine; if that changes nothing the
 // path is blocked forever. The schedule is a function of the decision vector, so paths stay reproducible.
 //
-// Unbuffered channels are rendezvous against a parked receiver: a send completes only if some goroutine is parked
-// receiving (or selecting a receive) on that channel. A sender may complete against a receiver parked in a select
-// that then takes another ready case; the value then stays in the channel for its next receive (a one-slot
-// relaxation, stated in DESIGN.md).
+// Unbuffered channels are rendezvous against a parked receiver: a send completes only against a goroutine parked
+// receiving (or selecting a receive) on that channel, and commits that receiver to the value (model.go waiter).
+// A sender parked first is not visible to a non-blocking select's receive case (it takes default).
 
 import (
 	"go/token"
@@ -260,7 +259,12 @@ func coopSend(ex *Exec, ch *vchan, v value) {
 				ex.progress()
 				return
 			}
+			if ch.cap == 0 && ch.handOff(v) {
+				ex.progress()
+				return
+			}
 			if ch.cap == 0 && len(ch.buf) == 0 && ch.recvWaiting > 0 {
+				// a receiver announced by the harness (vExpectRecv)
 				ch.recvWaiting--
 				ch.buf = append(ch.buf, v)
 				ex.progress()
@@ -285,11 +289,13 @@ func coopRecv(ex *Exec, ch *vchan) (value, bool) {
 				return nil, false
 			}
 			if ch.cap == 0 {
-				ch.recvWaiting++
+				w := &waiter{}
+				w.park(ch)
 				ex.yield("chan receive")
-				if len(ch.buf) == 0 && ch.recvWaiting > 0 {
-					ch.recvWaiting-- // nobody handed anything over: withdraw
+				if w.satisfied {
+					return w.val, true
 				}
+				w.withdraw()
 				continue
 			}
 		}
